@@ -138,6 +138,16 @@ func convertToFloat(other Object) (Float, bool) {
 	return 0, false
 }
 
+// The result of an operation when convertToFloat(other) failed:
+// OverflowError if other is an int too large for a float, otherwise
+// NotImplemented
+func cantConvertToFloat(other Object) (Object, error) {
+	if _, ok := other.(*BigInt); ok {
+		return nil, overflowErrorFloat
+	}
+	return NotImplemented, nil
+}
+
 func (a Float) M__neg__() (Object, error) {
 	return -a, nil
 }
@@ -154,7 +164,7 @@ func (a Float) M__add__(other Object) (Object, error) {
 	if b, ok := convertToFloat(other); ok {
 		return Float(a + b), nil
 	}
-	return NotImplemented, nil
+	return cantConvertToFloat(other)
 }
 
 func (a Float) M__radd__(other Object) (Object, error) {
@@ -169,14 +179,14 @@ func (a Float) M__sub__(other Object) (Object, error) {
 	if b, ok := convertToFloat(other); ok {
 		return Float(a - b), nil
 	}
-	return NotImplemented, nil
+	return cantConvertToFloat(other)
 }
 
 func (a Float) M__rsub__(other Object) (Object, error) {
 	if b, ok := convertToFloat(other); ok {
 		return Float(b - a), nil
 	}
-	return NotImplemented, nil
+	return cantConvertToFloat(other)
 }
 
 func (a Float) M__isub__(other Object) (Object, error) {
@@ -187,7 +197,7 @@ func (a Float) M__mul__(other Object) (Object, error) {
 	if b, ok := convertToFloat(other); ok {
 		return Float(a * b), nil
 	}
-	return NotImplemented, nil
+	return cantConvertToFloat(other)
 }
 
 func (a Float) M__rmul__(other Object) (Object, error) {
@@ -205,7 +215,7 @@ func (a Float) M__truediv__(other Object) (Object, error) {
 		}
 		return Float(a / b), nil
 	}
-	return NotImplemented, nil
+	return cantConvertToFloat(other)
 }
 
 func (a Float) M__rtruediv__(other Object) (Object, error) {
@@ -215,7 +225,7 @@ func (a Float) M__rtruediv__(other Object) (Object, error) {
 		}
 		return Float(b / a), nil
 	}
-	return NotImplemented, nil
+	return cantConvertToFloat(other)
 }
 
 func (a Float) M__itruediv__(other Object) (Object, error) {
@@ -230,7 +240,7 @@ func (a Float) M__floordiv__(other Object) (Object, error) {
 		}
 		return q, nil
 	}
-	return NotImplemented, nil
+	return cantConvertToFloat(other)
 }
 
 func (a Float) M__rfloordiv__(other Object) (Object, error) {
@@ -241,7 +251,7 @@ func (a Float) M__rfloordiv__(other Object) (Object, error) {
 		}
 		return q, nil
 	}
-	return NotImplemented, nil
+	return cantConvertToFloat(other)
 }
 
 func (a Float) M__ifloordiv__(other Object) (Object, error) {
@@ -285,7 +295,7 @@ func (a Float) M__mod__(other Object) (Object, error) {
 		_, r, err := floatDivMod(a, b)
 		return r, err
 	}
-	return NotImplemented, nil
+	return cantConvertToFloat(other)
 }
 
 func (a Float) M__rmod__(other Object) (Object, error) {
@@ -293,7 +303,7 @@ func (a Float) M__rmod__(other Object) (Object, error) {
 		_, r, err := floatDivMod(b, a)
 		return r, err
 	}
-	return NotImplemented, nil
+	return cantConvertToFloat(other)
 }
 
 func (a Float) M__imod__(other Object) (Object, error) {
@@ -304,14 +314,16 @@ func (a Float) M__divmod__(other Object) (Object, Object, error) {
 	if b, ok := convertToFloat(other); ok {
 		return floatDivMod(a, b)
 	}
-	return NotImplemented, None, nil
+	res, err := cantConvertToFloat(other)
+	return res, None, err
 }
 
 func (a Float) M__rdivmod__(other Object) (Object, Object, error) {
 	if b, ok := convertToFloat(other); ok {
 		return floatDivMod(b, a)
 	}
-	return NotImplemented, None, nil
+	res, err := cantConvertToFloat(other)
+	return res, None, err
 }
 
 // Raises a to the power of b
@@ -339,14 +351,14 @@ func (a Float) M__pow__(other, modulus Object) (Object, error) {
 	if b, ok := convertToFloat(other); ok {
 		return floatPow(a, b)
 	}
-	return NotImplemented, nil
+	return cantConvertToFloat(other)
 }
 
 func (a Float) M__rpow__(other Object) (Object, error) {
 	if b, ok := convertToFloat(other); ok {
 		return floatPow(b, a)
 	}
-	return NotImplemented, nil
+	return cantConvertToFloat(other)
 }
 
 func (a Float) M__ipow__(other, modulus Object) (Object, error) {
